@@ -159,7 +159,7 @@ func (r *Run) Violate(key, what string, witness any) {
 		r.res.Violations = append(r.res.Violations, v)
 	}
 	v.Count++
-	if v.Count <= 3 {
+	if v.Count <= 1 {
 		dir := filepath.Join(r.ReplayDir, r.Prop)
 		_ = os.MkdirAll(dir, 0o755)
 		name := fmt.Sprintf("%s-s%d-%d-%d.json", nonFile.Replace(key), r.Seed, r.Shard, v.Count)
